@@ -1,3 +1,151 @@
-import EpsicProofs.FieldArith
+import EpsicProofs.Props.C10
+/-! # C09 — Hermitian square root (and polar decomposition)
+
+`Quat.sqrtH` is `sqrt(Quaternion<T,Hermitian>)` with the scalar square root as a leaf and the
+order tests (`<`, `≤`, machine epsilon) as `OrdLeaves`.  Over any linearly ordered field. -/
+set_option linter.unusedSectionVars false
+set_option linter.unusedVariables false
 namespace Epsic.C09
+open Epsic Epsic.Pauli Epsic.C10
+variable {K : Type} [Field K] [LinearOrder K] [IsStrictOrderedRing K] [DecidableEq K]
+
+/-- the order leaves behave like `<`, `≤` and a non-negative epsilon -/
+def OrdSpec (o : Quat.OrdLeaves K) : Prop :=
+  (∀ x, o.ltZero x = decide (x < 0)) ∧ (∀ a b, o.le a b = decide (a ≤ b)) ∧ 0 ≤ o.eps
+/-- the square-root leaf is defined on every non-negative argument -/
+def SqrtTotal (sqrtFn : K → R K) : Prop := ∀ x, 0 ≤ x → ∃ r, sqrtFn x = .ok r
+
+theorem clamp_of_nonneg (o : Quat.OrdLeaves K) (ho : OrdSpec o) (d s0 : K) (hd : 0 ≤ d) : Quat.clampDet o d s0 = d := by
+  simp [Quat.clampDet, ho.1, not_lt.mpr hd]
+theorem clamp_nonneg (o : Quat.OrdLeaves K) (ho : OrdSpec o) (d s0 : K)
+    (hd : 0 ≤ d ∨ -d ≤ 4 * o.eps * s0 * s0) : 0 ≤ Quat.clampDet o d s0 := by
+  unfold Quat.clampDet
+  rw [ho.1, ho.2.1]
+  by_cases h1 : d < 0
+  · have h2 : -d ≤ 4 * o.eps * s0 * s0 := by
+      rcases hd with h | h
+      · exact absurd h (not_le.mpr h1)
+      · exact h
+    have h2' : -d ≤ 2 * 2 * o.eps * s0 * s0 := by
+      calc -d ≤ 4 * o.eps * s0 * s0 := h2
+        _ = 2 * 2 * o.eps * s0 * s0 := by ring
+    simp [h1, h2']
+  · simp [h1, not_lt.mp h1]
+
+/-- **the square root squares back to its argument and is positive semi-definite**, for every
+PSD Hermitian quaternion whose (computed) determinant is non-negative -/
+theorem sqrt_sq (sqrtFn : K → R K) (hs : SqrtSpec sqrtFn) (o : Quat.OrdLeaves K) (ho : OrdSpec o)
+    (h R : Quat K) (hs0 : 0 ≤ h.s0) (hdet : 0 ≤ Quat.detH h) (hres : Quat.sqrtH sqrtFn o h = .ok R) :
+    (R.s0*R.s0 + (R.s1*R.s1 + R.s2*R.s2 + R.s3*R.s3) = h.s0 ∧ 2*R.s0*R.s1 = h.s1 ∧ 2*R.s0*R.s2 = h.s2 ∧ 2*R.s0*R.s3 = h.s3) ∧
+    (0 ≤ R.s0 ∧ R.s1*R.s1 + R.s2*R.s2 + R.s3*R.s3 ≤ R.s0*R.s0) := by
+  unfold Quat.sqrtH Quat.sqrtHWith at hres
+  rw [clamp_of_nonneg o ho _ _ hdet] at hres
+  cases hrd : sqrtFn (Quat.detH h) with
+  | error e => simp [hrd, bind, Except.bind] at hres
+  | ok rd =>
+    obtain ⟨hrd2, hrd0⟩ := hs _ _ hrd
+    simp only [hrd, bind, Except.bind] at hres
+    generalize hsc : sqrtFn _ = y at hres
+    cases y with
+    | error e => simp at hres
+    | ok sc =>
+      obtain ⟨hsc2', hsc0⟩ := hs _ _ hsc
+      have hsc2 : sc * sc = 1 / 2 * (h.s0 + rd) := by rw [hsc2']; simp [half_eq]
+      simp only [eq0_eq] at hres
+      have hdetdef : Quat.detH h = h.s0*h.s0 - h.s1*h.s1 - h.s2*h.s2 - h.s3*h.s3 := rfl
+      by_cases hz : sc = 0
+      · -- scalar = 0 forces h = 0
+        simp only [hz, decide_true, ↓reduceIte, pure, Except.pure] at hres
+        have hR : R = Quat.ofScalar 0 := by cases hres; rfl
+        have hsum : h.s0 + rd = 0 := by rw [hz] at hsc2; linarith
+        have h0 : h.s0 = 0 := by linarith
+        have hrd' : rd = 0 := by linarith
+        have hv : h.s1*h.s1 + h.s2*h.s2 + h.s3*h.s3 = 0 := by
+          rw [hrd', hdetdef, h0] at hrd2; linarith
+        have h1 : h.s1 = 0 := by nlinarith [mul_self_nonneg h.s1, mul_self_nonneg h.s2, mul_self_nonneg h.s3]
+        have h2 : h.s2 = 0 := by nlinarith [mul_self_nonneg h.s1, mul_self_nonneg h.s2, mul_self_nonneg h.s3]
+        have h3 : h.s3 = 0 := by nlinarith [mul_self_nonneg h.s1, mul_self_nonneg h.s2, mul_self_nonneg h.s3]
+        subst hR
+        simp [Quat.ofScalar, h0, h1, h2, h3]
+      · simp only [hz, decide_false, Bool.false_eq_true, ↓reduceIte, two_eq, pure, Except.pure] at hres
+        have hR : R = ⟨sc, h.s1 / (2 * sc), h.s2 / (2 * sc), h.s3 / (2 * sc)⟩ := by cases hres; rfl
+        subst hR
+        have hscpos : 0 < sc := lt_of_le_of_ne hsc0 (Ne.symm hz)
+        -- |v|² = (s0 - rd)(s0 + rd) = (s0 - rd) · 2 sc²
+        have hv : h.s1*h.s1 + h.s2*h.s2 + h.s3*h.s3 = (h.s0 - rd) * (2 * (sc*sc)) := by
+          rw [hsc2]; rw [hdetdef] at hrd2; linear_combination hrd2
+        have hquad : h.s1 / (2 * sc) * (h.s1 / (2 * sc)) + h.s2 / (2 * sc) * (h.s2 / (2 * sc)) + h.s3 / (2 * sc) * (h.s3 / (2 * sc))
+            = (h.s0 - rd) / 2 := by
+          have : h.s1 / (2 * sc) * (h.s1 / (2 * sc)) + h.s2 / (2 * sc) * (h.s2 / (2 * sc)) + h.s3 / (2 * sc) * (h.s3 / (2 * sc))
+              = (h.s1*h.s1 + h.s2*h.s2 + h.s3*h.s3) / (4 * (sc*sc)) := by field_simp; ring
+          rw [this, hv]; field_simp; ring
+        refine ⟨⟨?_, ?_, ?_, ?_⟩, hsc0, ?_⟩
+        · simp only; rw [hquad, hsc2]; ring
+        · simp only; field_simp
+        · simp only; field_simp
+        · simp only; field_simp
+        · simp only; rw [hquad, hsc2]
+          have : h.s0 - rd ≤ h.s0 + rd := by linarith
+          linarith
+/-- as matrices: `convert(sqrt h)² = convert(h)` -/
+theorem sqrt_sq_matrix (sqrtFn : K → R K) (hs : SqrtSpec sqrtFn) (o : Quat.OrdLeaves K) (ho : OrdSpec o)
+    (h R : Quat K) (hs0 : 0 ≤ h.s0) (hdet : 0 ≤ Quat.detH h) (hres : Quat.sqrtH sqrtFn o h = .ok R) :
+    convertHR R * convertHR R = convertHR h := by
+  obtain ⟨⟨e0, e1, e2, e3⟩, _⟩ := sqrt_sq sqrtFn hs o ho h R hs0 hdet hres
+  ext <;> simp [epsic] <;>
+  first
+  | ring1 | linear_combination e0 + e1 | linear_combination e0 - e1 | linear_combination e2 | linear_combination -e2
+  | linear_combination e3 | linear_combination -e3 | linear_combination -(e0 + e1) | linear_combination -(e0 - e1)
+/-- singular case `det h = 0` (100% polarised): scalar part `√(s0/2)` -/
+theorem sqrt_singular (sqrtFn : K → R K) (hs : SqrtSpec sqrtFn) (o : Quat.OrdLeaves K) (ho : OrdSpec o)
+    (h R : Quat K) (hs0 : 0 ≤ h.s0) (hdet : Quat.detH h = 0) (hres : Quat.sqrtH sqrtFn o h = .ok R) :
+    R.s0 * R.s0 = h.s0 / 2 ∧ R.s1*R.s1 + R.s2*R.s2 + R.s3*R.s3 = R.s0*R.s0 := by
+  obtain ⟨⟨e0, e1, e2, e3⟩, hr0, hle⟩ := sqrt_sq sqrtFn hs o ho h R hs0 (le_of_eq hdet.symm) hres
+  have hd : h.s0*h.s0 - h.s1*h.s1 - h.s2*h.s2 - h.s3*h.s3 = 0 := hdet
+  -- det h = (R0² - |Rv|²)²
+  have hsq : (R.s0*R.s0 - (R.s1*R.s1 + R.s2*R.s2 + R.s3*R.s3)) ^ 2 = 0 := by
+    have : h.s0*h.s0 - h.s1*h.s1 - h.s2*h.s2 - h.s3*h.s3
+        = (R.s0*R.s0 - (R.s1*R.s1 + R.s2*R.s2 + R.s3*R.s3)) ^ 2 := by
+      rw [← e0, ← e1, ← e2, ← e3]; ring
+    rw [← this]; exact hd
+  have hz : R.s0*R.s0 - (R.s1*R.s1 + R.s2*R.s2 + R.s3*R.s3) = 0 := pow_eq_zero_iff (by norm_num) |>.mp hsq
+  constructor <;> linarith
+
+/-- **definedness under adversarial rounding**: whatever value `d̃` the floating-point evaluation of
+the determinant produced — non-negative, or negative by at most `4 ε s0²` — every square-root
+argument is non-negative and no division by zero occurs -/
+theorem sqrt_defined_any_rounding (sqrtFn : K → R K) (hs : SqrtSpec sqrtFn) (ht : SqrtTotal sqrtFn)
+    (o : Quat.OrdLeaves K) (ho : OrdSpec o) (h : Quat K) (hs0 : 0 ≤ h.s0) (dT : K)
+    (hd : 0 ≤ dT ∨ -dT ≤ 4 * o.eps * h.s0 * h.s0) : ∃ R, Quat.sqrtHWith sqrtFn o dT h = .ok R := by
+  unfold Quat.sqrtHWith
+  obtain ⟨rd, hrd⟩ := ht _ (clamp_nonneg o ho dT h.s0 hd)
+  obtain ⟨_, hrd0⟩ := hs _ _ hrd
+  have harg : (0 : K) ≤ 1 / 2 * (h.s0 + rd) := by positivity
+  obtain ⟨sc, hsc⟩ := ht _ harg
+  have hsc' : sqrtFn (half * (h.s0 + rd)) = .ok sc := by simpa [half_eq] using hsc
+  simp only [hrd, bind, Except.bind, hsc']
+  by_cases hz : sc = 0 <;> simp [hz, pure, Except.pure]
+/-- without the clamp (ε = 0) a determinant that rounds below zero has no square root -/
+theorem sqrt_undefined_without_clamp (sqrtFn : K → R K) (hs : SqrtSpec sqrtFn)
+    (o : Quat.OrdLeaves K) (ho : OrdSpec o) (he : o.eps = 0) (h : Quat K) (dT : K) (hd : dT < 0) :
+    ∀ R, Quat.sqrtHWith sqrtFn o dT h ≠ .ok R := by
+  intro R hres
+  unfold Quat.sqrtHWith at hres
+  have hcl : Quat.clampDet o dT h.s0 = dT := by
+    unfold Quat.clampDet; rw [ho.1, ho.2.1, he]
+    have : ¬ (-dT ≤ 0) := by linarith
+    simp [hd, this]
+  rw [hcl] at hres
+  cases hrd : sqrtFn dT with
+  | error e => simp [hrd, bind, Except.bind] at hres
+  | ok rd =>
+    obtain ⟨h2, _⟩ := hs _ _ hrd
+    nlinarith [mul_self_nonneg rd]
+
+/-! non-vacuity: `h = (5/4, 3/4, 0, 0)`, a PSD quaternion with `det = 1` -/
+example : (0:ℚ) ≤ (5/4) ∧ 0 ≤ Quat.detH (⟨5/4, 3/4, 0, 0⟩ : Quat ℚ) := by
+  constructor
+  · norm_num
+  · simp only [Quat.detH]; norm_num
+
 end Epsic.C09
